@@ -79,7 +79,7 @@ func (c *SConn) Read(p []byte) (int, error) {
 	if len(p) < max {
 		max = len(p)
 	}
-	if c.TimeoutAlt && armed {
+	if c.TimeoutAlt && armed && c.X != nil {
 		if c.X.Choose(explore.KTime, 2) == 1 {
 			c.TimedOut = true
 			c.ReadLog = append(c.ReadLog, -1)
@@ -87,7 +87,7 @@ func (c *SConn) Read(p []byte) (int, error) {
 		}
 	}
 	n := max
-	if max > 1 {
+	if max > 1 && c.X != nil {
 		if c.Menu != nil {
 			m := c.Menu(max)
 			n = m[c.X.Choose(explore.KRead, len(m))]
